@@ -1,15 +1,16 @@
 #!/bin/bash
 # seedrecheck.sh [key...]: re-run every saved seeded change (seeded/<key>/patch.diff) through its property's quick check
-cd /verif
+cd "$(dirname "$0")/.."
+ROOT="$(pwd)"
 keys="$@"; [ -z "$keys" ] && keys=$(ls -d seeded/C* | xargs -n1 basename)
 for k in $keys; do
   id=${k:0:3}; x=${k: -1}
-  python3 tools/seedcheck.py $id $x --src /verif/seeded/$k > seeded/results/$k.json 2>&1
+  python3 tools/seedcheck.py $id $x --src $ROOT/seeded/$k > seeded/results/$k.json 2>&1
   python3 - "$k" <<'PY'
 import json,sys
 k=sys.argv[1]
 try:
-    r=json.load(open('/verif/seeded/results/%s.json'%k)); c=list(r['checks'].values())[0]
+    r=json.load(open('seeded/results/%s.json'%k)); c=list(r['checks'].values())[0]
     print(k, 'valid=%s'%(r.get('builds') and r.get('stable_suite_passes') and r.get('demo_with_change')=='fail' and r.get('demo_without_change')=='pass'), 'CAUGHT' if c['caught'] else 'MISSED rc=%d'%c['rc'], c['signatures'][:2], '%ds'%c['secs'])
 except Exception as e:
     print(k,'ERROR',e)
